@@ -90,7 +90,9 @@ fn worker(args: &[String]) -> i32 {
         }
         if rss_limit_kb > 0 && k % 8 == 0 && k > 0 {
             let rss_kb = std::fs::read_to_string("/proc/self/statm").ok().and_then(|t| t.split_whitespace().nth(1).and_then(|x| x.parse::<u64>().ok())).map(|pages| pages * 4).unwrap_or(0);
-            if rss_kb > rss_limit_kb {
+            // engines on the SQLite store also leave the threads of their connection pool behind
+            let threads = std::fs::read_to_string("/proc/self/status").ok().and_then(|t| t.lines().find(|l| l.starts_with("Threads:")).and_then(|l| l.split_whitespace().nth(1).and_then(|x| x.parse::<u64>().ok()))).unwrap_or(0);
+            if rss_kb > rss_limit_kb || threads > 1500 {
                 stopped_early = true;
                 break;
             }
